@@ -1094,6 +1094,90 @@ def directed_ints(ctx, res, stats, histories, thorough):
     stats['directed_int_histories'] = n
 
 
+# Composite keys (stored as their serialised form, raw = 0) and, for each, its TWIN: the bytes key (stored natively, raw = 1) equal to that
+# serialised form.  The two share the key column of the table and are different dictionary keys.
+TWIN_COMPOSITES = [('user', 42), (1, 2), None, True, 2 ** 70, -2 ** 63 - 1, (None,), ((1, 'a'), 2.5), ()]
+
+
+def twin_of(kind, k, mkdir):
+    """the bytes key equal to what an Index of this kind writes into the key column for the composite key k"""
+    d = mkdir()
+    h = Handle(kind, d)
+    try:
+        h.open(None)
+        db_key, raw = h.idx.cache.disk.put(k)
+        return None if raw else bytes(db_key)
+    finally:
+        h.close()
+        shutil.rmtree(d, ignore_errors=True)
+
+
+def twin_history(k, t, order, salt):
+    """(init, ops): the composite key k and its twin bytes key t through every way an Index stores, finds, lists and removes a key."""
+    first, second = (t, k) if order == 0 else (k, t)
+    init = [('other', 0)] if order < 2 else [('other', 0), (first, 'made first'), (second, 'made second')]
+    ops = []
+    if order < 2:
+        store = [('setitem', [first, 'first value']), ('setitem', [second, 'second value'])]
+        if salt % 3 == 1:
+            store = [('setdefault', [first, 'first value']), ('setdefault', [second, 'second value'])]
+        elif salt % 3 == 2:
+            store = [('update', [[(first, 'first value')]]), ('update', [[(second, 'second value'), ('more', 1)]])]
+        ops += store
+    ops += [('getitem', [first]), ('getitem', [second]), ('len', []), ('contains', [first]), ('contains', [second]), ('keys', []), ('values', []), ('items', []),
+            ('reversed', []), ('reopen', []), ('items', []), ('len', []),
+            ('setitem', [second, 'v2']), ('getitem', [first]), ('setitem', [first, 'x' * 40]), ('getitem', [second]), ('setdefault', [first, 'ignored']),
+            ('pop', [second]), ('contains', [first]), ('getitem', [first]), ('get', [second, 'gone']), ('setdefault', [second, 'again']), ('items', []),
+            ('update', [[(first, 1), (second, 2)]]), ('items', []), ('delitem', [first]), ('getitem', [second]), ('contains', [first]), ('len', []),
+            ('pop_default', [first, 'absent']), ('setitem', [first, 'back']), ('pickle', []), ('items', []), ('peekitem', [True]), ('popitem', [True]),
+            ('popitem', [True]), ('items', []), ('update', [[(second, 's'), (first, 'f')]]), ('popitem', [False]), ('popitem', [False]), ('keys', []),
+            ('delitem', [first]), ('delitem', [second]), ('reopen', []), ('len', []), ('items', [])]
+    return init, ops
+
+
+def directed_twins(ctx, res, stats, thorough):
+    """Twin keys on every kind of Index: a composite key and the bytes key equal to its serialised form are two keys of a dictionary; stored by [],
+    setdefault, update and the constructor in both orders, looked up, listed by the views, replaced, popped, deleted, taken by popitem, over reopen
+    and unpickle.  Same oracle (OrderedDict after every call) and replay format as the generated histories; a divergence is shrunk."""
+    def mkdir():
+        return ctx.scratch('c12t')
+
+    n = 0
+    shrunk = {}
+    for ki, kind in enumerate(KINDS):
+        for ci, k in enumerate(TWIN_COMPOSITES):
+            t = twin_of(kind, k, mkdir)
+            if t is None:
+                continue        # stored natively by this disk: it has no twin
+            for order in (0, 1, 2):
+                if not thorough and (ci + ki + order + ctx.seed) % 2 and not (ci == 0 and order == 0):
+                    continue
+                hid = 'twins-%s-%d-%d' % (kind, ci, order)
+                init, ops = twin_history(k, t, order, ci + ki + ctx.seed)
+                events, div, at = run_history(kind, init, ops, mkdir, stats=stats)
+                n += 1
+                before = list(OrderedDict(init).items())
+                for e in events:
+                    res.count(['twins', kind, e['op'], crepr(e['args']), crepr(before)], nontrivial=True)
+                    before = e['items']
+                if div is None:
+                    continue
+                sig = div['sig']
+                upto = ops[:at + 1] if at is not None and at >= 0 else []
+                if shrunk.get(sig, 0) >= 2:
+                    continue
+                shrunk[sig] = shrunk.get(sig, 0) + 1
+                sinit, sops = shrink(kind, init, upto, mkdir, sig, budget=80) if upto else (init, upto)
+                _, sdiv, sat = run_history(kind, sinit, sops, mkdir)
+                if sdiv is None or sdiv['sig'] != sig:
+                    sinit, sops, sdiv = init, upto, div
+                desc = 'twin keys (a composite key and the bytes key equal to its stored form): Index diverges from OrderedDict (%s) at %s: expected %s observed %s' % (
+                    sdiv['what'], 'init' if not sops else '%s(%s)' % (sops[-1][0], ', '.join(rl(sops[-1][1]))[:200]),
+                    sdiv['expected'][:200], sdiv['observed'][:200])
+                res.violations.append(fw.Violation(sig, desc, history_case(hid, kind, 'directed', sinit, sops, sdiv)))
+    stats['directed_twin_histories'] = n
+
+
 # ---------------------------------------------------------------------------
 # (b) correspondence
 
@@ -2126,7 +2210,7 @@ def finish_extra(res, stats):
         'schedule_steps': stats.get('schedule_steps', 0),
     })
     for k in ('histories_failing', 'histories_contended', 'failing_sources', 'contended_calls', 'contended_calls_that_waited',
-              'contended_failed_begin_attempts', 'directed_int_histories', 'shared_dir_runs', 'shared_dir_programs', 'setdefault_race_runs',
+              'contended_failed_begin_attempts', 'directed_int_histories', 'directed_twin_histories', 'shared_dir_runs', 'shared_dir_programs', 'setdefault_race_runs',
               'histories_evicting_parent', 'evicting_parent_items_stored', 'lookup_among_replacements_runs',
               'lookup_among_replacements_that_looked_again'):
         res.extra[k] = stats.get(k, 0)
@@ -2173,7 +2257,11 @@ RULE = ('sequential: generated histories of 10-40 mapping operations (two stream
         'Evicting parents (monitor only, own random stream): an Index from FanoutCache.index / DjangoCache.index (OPTIONS) of a parent CONSTRUCTED '
         'with each eviction policy and size_limit %d over two shards, filled with 80-170 pairs of inline values of 200-900 characters (several '
         'times one shard\'s share of that limit) by update, [] and setdefault, read, obtained again by reopen / unpickle, filled further, popped '
-        'from both ends: after every call items() is what OrderedDict holds.' % SMALL_PARENT_LIMIT)
+        'from both ends: after every call items() is what OrderedDict holds.  Twin keys (monitor only): for every kind and each composite key of '
+        '{("user", 42), (1, 2), None, True, 2**70, -2**63-1, (None,), ((1, "a"), 2.5), ()} the bytes key equal to the form this Index writes into the key column '
+        '(bytes(index.cache.disk.put(k)[0])): both stored in either order by [], setdefault, update and the constructor, then looked up, listed by '
+        'the views, replaced, popped, deleted, taken by popitem from both ends, over reopen and unpickle (quick tier: half of the (key, order) '
+        'combinations by seed).' % SMALL_PARENT_LIMIT)
 
 
 def run(ctx):
@@ -2184,6 +2272,7 @@ def run(ctx):
     histories = sequential(ctx, res, nhist, stats)
     directed_values(ctx, res, stats, histories, not ctx.quick)
     directed_ints(ctx, res, stats, histories, not ctx.quick)
+    directed_twins(ctx, res, stats, not ctx.quick)
     extra_histories(ctx, res, stats, 80 if ctx.quick else 800, 40 if ctx.quick else 400)
     evicting_parent_histories(ctx, res, stats, 8 if ctx.quick else 64)
     correspondence(ctx, res, histories, 7000 if ctx.quick else 100000)
@@ -2207,6 +2296,7 @@ def search(ctx, broken):
     sequential(ctx, res, nhist, stats)
     directed_values(ctx, res, stats, [], True)
     directed_ints(ctx, res, stats, [], True)
+    directed_twins(ctx, res, stats, True)
     extra_histories(ctx, res, stats, 240, 120)
     evicting_parent_histories(ctx, res, stats, 16)
     concurrent(ctx, res, nsched, stats)
